@@ -38,20 +38,30 @@ inductive Written (n : Str) : Str → Prop
 /-- none of the 19 code points whose case mapping contains an ASCII letter -/
 def InModel (s : Str) : Prop := s.any caseFoldsToAscii = false
 
-/-- a two-letter word that is ON in some capitalisation -/
-def OnWord (w : Str) : Prop := ∃ o n, w = [o, n] ∧ upperC o = 'O' ∧ upperC n = 'N'
+/-- a gap between two tokens: whitespace and whole comments - whitespace, then any number of block comments
+(`/*` b `*/`, no `*/` inside b) and line comments (`--` b newline), each followed by a gap -/
+inductive Gap : Str → Prop
+  | ws (w : Str) (h : Ws w) : Gap w
+  | block (w b rest : Str) (hw : Ws w) (hb : hasSub starSlash b = false) (hr : Gap rest) :
+      Gap (w ++ '/' :: '*' :: (b ++ '*' :: '/' :: rest))
+  | line (w b rest : Str) (hw : Ws w) (hb : '\n' ∉ b) (hr : Gap rest) :
+      Gap (w ++ '-' :: '-' :: (b ++ '\n' :: rest))
 
-/-- a word that is `kw` in some capitalisation, character by character -/
-def CaseOf (kw w : Str) : Prop := upper w = kw ∧ w.length = kw.length ∧ ∀ c ∈ w, isSpace c = false ∧ isBlank c = false
+/-- how the statement may go on after the indexed columns and a gap: it ends, or WHERE (any capitalisation)
+and anything follows, or a comment that only the end of the statement closes (repair of C07-21) -/
+inductive TailEnd : Str → Prop
+  | nothing : TailEnd []
+  | whereClause (t : Str) (ht : upper (t.take 5) = kWHERE) : TailEnd t
+  | openLine (b : Str) (hb : '\n' ∉ b) : TailEnd ('-' :: '-' :: b)
+  | openBlock (b : Str) (hb : hasSub starSlash b = false) : TailEnd ('/' :: '*' :: b)
 
-/-- what may follow the closing parenthesis of the indexed columns (after whitespace): nothing, or
-WHERE in some capitalisation followed by anything -/
-def IndexTailOk (t : Str) : Prop := t = [] ∨ upper (t.take 5) = kWHERE
+/-- what may follow the closing parenthesis of the indexed columns -/
+def IndexTailOk (t : Str) : Prop := ∃ g e, Gap g ∧ TailEnd e ∧ t = g ++ e
 
 /-- the text from the opening parenthesis of the indexed columns on: the scanner finds a closing
 parenthesis and what follows it is an `IndexTailOk` -/
 def IndexColsOk (r : Str) : Prop :=
-  r.head? = some '(' ∧ ∃ close, closingParen r = .ok close ∧ IndexTailOk (lstrip (r.drop (close + 1)))
+  r.head? = some '(' ∧ ∃ close, closingParen r = .ok close ∧ IndexTailOk (r.drop (close + 1))
 
 /-- the text from the opening parenthesis of the module arguments on: the scanner finds a closing
 parenthesis and only whitespace follows it -/
@@ -489,80 +499,137 @@ theorem collapse_ws (g : Str) (h : Ws g) : Ws (collapse isBlank g) ∧ (g ≠ []
   · cases h1
 
 
-/-! ### reading a name, skipping a gap -/
+/-! ### the fuel of the comment loop -/
 
-theorem plain_facts (x : Char) (h : plainChar x = true) :
-    isSpace x = false ∧ x ≠ '(' ∧ x ≠ '-' ∧ x ≠ '/' ∧ x ≠ '.' ∧ x ≠ '[' ∧ x ≠ '`' ∧ x ≠ '\'' ∧ x ≠ '"' := by
-  simp only [plainChar, Bool.and_eq_true, Bool.not_eq_true', bne_iff_ne, ne_eq] at h
-  obtain ⟨⟨⟨⟨⟨⟨⟨⟨a0, a1⟩, a2⟩, a3⟩, a4⟩, a5⟩, a6⟩, a7⟩, a8⟩ := h
-  exact ⟨a0, a1, a2, a3, a4, a5, a6, a7, a8⟩
+theorem parseComment_shorter (s c r : Str) (h : parseComment s = .ok (c, r)) : r.length < s.length := by
+  have hne : s ≠ [] := by
+    intro e; subst e; simp [parseComment, dashDash, slashStar] at h
+  have hpos : 0 < s.length := List.length_pos_iff.mpr hne
+  unfold parseComment at h
+  split at h
+  · split at h
+    · cases h; exact hpos
+    · cases h; rw [List.length_drop]; omega
+  · split at h
+    · split at h
+      · cases h; exact hpos
+      · cases h; rw [List.length_drop]; omega
+    · cases h
 
-theorem unquotedName_plain (c : Char) (tl : Str) (hc : isSpace c = true ∨ c = '(') :
-    ∀ (n acc : Str), (∀ x ∈ n, plainChar x = true) → unquotedName acc (n ++ c :: tl) = .ok (acc.reverse ++ n, c :: tl)
-  | [], acc, _ => by
-      have h1 : (isSpace c || c == '(' || c == '-' || c == '/') = true := by
-        rcases hc with h | h
-        · simp [h]
-        · subst h; decide
-      have h2 : (c == '-' || c == '/') = false := by
-        rcases hc with h | h
-        · have := Proofs.Schema.space_not_comment c h
-          simp [this.1, this.2]
-        · subst h; decide
-      simp only [List.nil_append, unquotedName, h1, h2, if_true, Bool.false_eq_true, if_false, List.append_nil]
-  | x :: xs, acc, h => by
-      obtain ⟨a0, a1, a2, a3, a4, _⟩ := plain_facts x (h x (List.mem_cons_self ..))
-      have h1 : (isSpace x || x == '(' || x == '-' || x == '/') = false := by simp [a0, a1, a2, a3]
-      have h2 : (x == '.') = false := by simp [a4]
-      simp only [List.cons_append, unquotedName, h1, h2, Bool.false_eq_true, if_false]
-      rw [unquotedName_plain c tl hc xs (x :: acc) (fun y hy => h y (List.mem_cons_of_mem _ hy))]
-      simp
+theorem dropWhile_length_le (p : Char → Bool) : ∀ s : Str, (s.dropWhile p).length ≤ s.length
+  | [] => Nat.le_refl _
+  | c :: cs => by
+      rw [List.dropWhile_cons]
+      split
+      · exact Nat.le_succ_of_le (dropWhile_length_le p cs)
+      · exact Nat.le_refl _
 
-theorem quotedName_plain (a : Char) (tl : Str) (h : plainChar a = true) : quotedName (a :: tl) = none := by
-  obtain ⟨_, _, _, _, _, a5, a6, a7, a8⟩ := plain_facts a h
-  simp [quotedName, isQuoteChar, a5, a6, a7, a8]
+theorem lstrip_length_le (s : Str) : (lstrip s).length ≤ s.length := dropWhile_length_le _ s
 
-theorem quote_facts (q : Char) (hq : isQuote q = true) : isSpace q = false ∧ isBlank q = false := by
-  simp only [isQuote, Bool.or_eq_true, beq_iff_eq] at hq
-  rcases hq with (h | h) | h <;> subst h <;> decide
+/-- any fuel above the length of the text gives the same answer: the fuel of `takeComments` (the length
+plus one, in every use) is never what ends the loop -/
+theorem takeComments_fuel : ∀ (f1 f2 : Nat) (s : Str) (acc : List Str), s.length < f1 → s.length < f2 →
+    takeComments f1 s acc = takeComments f2 s acc
+  | 0, _, _, _, h, _ => absurd h (Nat.not_lt_zero _)
+  | _ + 1, 0, _, _, _, h => absurd h (Nat.not_lt_zero _)
+  | f1 + 1, f2 + 1, s, acc, h1, h2 => by
+      unfold takeComments
+      split
+      · cases hp : parseComment s with
+        | error e => rfl
+        | ok cr =>
+          obtain ⟨c, r⟩ := cr
+          have := parseComment_shorter s c r hp
+          have hl := lstrip_length_le r
+          simp only [ok_bind]
+          exact takeComments_fuel f1 f2 (lstrip r) _ (by omega) (by omega)
+      · rfl
 
-/-- the name reader on any spelling of `n`: followed by whitespace or "(" when written plainly, and not
-by its own quote character when quoted -/
-theorem rowName_written (n w rest : Str) (hw : Written n w)
-    (hplain : w = n → ∃ c tl, rest = c :: tl ∧ (isSpace c = true ∨ c = '('))
-    (hq : ∀ q, isQuote q = true → rest.head? ≠ some q) :
-    rowNameAndRest (w ++ rest) = .ok (n, rest) := by
-  cases hw with
-  | quoted q hq' => exact Proofs.Schema.rowNameAndRest_quoted q hq' n rest (hq q hq')
-  | bracket h =>
-      have := Proofs.Schema.rowNameAndRest_bracket n rest h
-      simpa using this
-  | plain h =>
-      obtain ⟨c, tl, hr, hc⟩ := hplain rfl
-      subst hr
-      obtain ⟨hne, hall⟩ := h
-      cases n with
-      | nil => exact absurd rfl hne
-      | cons a as =>
-        have hu := unquotedName_plain c tl hc (a :: as) [] hall
-        have hqn := quotedName_plain a (as ++ c :: tl) (hall a (List.mem_cons_self ..))
-        simp only [List.cons_append] at hu hqn ⊢
-        rw [rowNameAndRest]
-        simp only [hqn]
-        simpa using hu
+/-! ### comments -/
 
-theorem written_head (n w : Str) (hw : Written n w) :
-    ∃ c tl, w = c :: tl ∧ isSpace c = false ∧ isBlank c = false := by
-  cases hw with
-  | quoted q hq => exact ⟨q, _, rfl, (quote_facts q hq).1, (quote_facts q hq).2⟩
-  | bracket h => exact ⟨'[', _, rfl, by decide, by decide⟩
-  | plain h =>
-      obtain ⟨hne, hall⟩ := h
-      cases n with
-      | nil => exact absurd rfl hne
-      | cons a as =>
-        have := plain_not_space a (hall a (List.mem_cons_self ..))
-        exact ⟨a, as, rfl, this, not_space_not_blank a this⟩
+theorem findSub_char (x : Char) (r : Str) : ∀ a : Str, x ∉ a → findSub [x] (a ++ x :: r) = some a.length
+  | [], _ => by simp [findSub, List.isPrefixOf]
+  | c :: cs, h => by
+      have hc : c ≠ x := fun e => h (e ▸ List.mem_cons_self ..)
+      have hx : (x == c) = false := by simpa using fun e => hc e.symm
+      have ih := findSub_char x r cs (fun hm => h (List.mem_cons_of_mem _ hm))
+      simp only [List.cons_append, findSub, List.isPrefixOf, hx, Bool.false_and, Bool.false_eq_true, if_false, ih,
+        Option.map_some, List.length_cons]
+
+theorem findSub_char_none (x : Char) : ∀ a : Str, x ∉ a → findSub [x] a = none
+  | [], _ => by simp [findSub]
+  | c :: cs, h => by
+      have hc : c ≠ x := fun e => h (e ▸ List.mem_cons_self ..)
+      have hx : (x == c) = false := by simpa using fun e => hc e.symm
+      have ih := findSub_char_none x cs (fun hm => h (List.mem_cons_of_mem _ hm))
+      simp only [findSub, List.isPrefixOf, hx, Bool.false_and, Bool.false_eq_true, if_false, ih, Option.map_none]
+
+theorem findSub_none_of_hasSub (k : Str) (hk : k ≠ []) : ∀ s : Str, hasSub k s = false → findSub k s = none
+  | [], _ => by
+      cases k with
+      | nil => exact absurd rfl hk
+      | cons a as => simp [findSub]
+  | c :: cs, h => by
+      rw [hasSub] at h
+      simp only [Bool.or_eq_false_iff] at h
+      rw [findSub]
+      simp only [h.1, Bool.false_eq_true, if_false, findSub_none_of_hasSub k hk cs h.2, Option.map_none]
+
+/-- `parse_comment_from_sql_segment` on `--` b newline rest (b without a newline) -/
+theorem parseComment_line (b rest : Str) (hb : '\n' ∉ b) :
+    parseComment ('-' :: '-' :: (b ++ '\n' :: rest)) = .ok ('-' :: '-' :: (b ++ ['\n']), rest) := by
+  have hf : findSub newline ('-' :: '-' :: (b ++ '\n' :: rest)) = some (b.length + 2) := by
+    have := findSub_char '\n' rest ('-' :: '-' :: b) (by
+      intro h
+      simp only [List.mem_cons] at h
+      rcases h with h | h | h
+      · cases h
+      · cases h
+      · exact hb h)
+    simpa [newline] using this
+  have e1 : dashDash.isPrefixOf ('-' :: '-' :: (b ++ '\n' :: rest)) = true := by simp [dashDash, List.isPrefixOf]
+  have e4 : ('-' :: '-' :: (b ++ '\n' :: rest)) = ('-' :: '-' :: (b ++ ['\n'])) ++ rest := by simp
+  have e5 : ('-' :: '-' :: (b ++ ['\n'])).length = b.length + 2 + 1 := by simp
+  rw [parseComment]
+  simp only [e1, if_true, hf]
+  rw [e4, ← e5, List.take_left', List.drop_left']
+  · rfl
+  · rfl
+
+/-- a `--` comment that only the end of the text ends (repair of C07-21) -/
+theorem parseComment_openLine (b : Str) (hb : '\n' ∉ b) :
+    parseComment ('-' :: '-' :: b) = .ok ('-' :: '-' :: b, []) := by
+  have hf : findSub newline ('-' :: '-' :: b) = none :=
+    findSub_char_none '\n' _ (by
+      intro h
+      simp only [List.mem_cons] at h
+      rcases h with h | h | h
+      · cases h
+      · cases h
+      · exact hb h)
+  have e1 : dashDash.isPrefixOf ('-' :: '-' :: b) = true := by simp [dashDash, List.isPrefixOf]
+  rw [parseComment]
+  simp only [e1, if_true, hf]
+
+/-- a `/*` comment that is never closed (repair of C07-21) -/
+theorem parseComment_openBlock (b : Str) (hb : hasSub starSlash b = false) :
+    parseComment ('/' :: '*' :: b) = .ok ('/' :: '*' :: b, []) := by
+  have hf : findSub starSlash (('/' :: '*' :: b).drop 2) = none :=
+    findSub_none_of_hasSub starSlash (by decide) b hb
+  have e1 : dashDash.isPrefixOf ('/' :: '*' :: b) = false := by simp [dashDash, List.isPrefixOf]
+  have e2 : slashStar.isPrefixOf ('/' :: '*' :: b) = true := by simp [slashStar, List.isPrefixOf]
+  rw [parseComment]
+  simp only [e1, Bool.false_eq_true, if_false, e2, if_true, hf]
+
+theorem startsWithComment_head (c : Char) (tl : Str) (h1 : c ≠ '-') (h2 : c ≠ '/') :
+    startsWithComment (c :: tl) = false := by
+  have e1 : ('-' == c) = false := by simpa using fun e => h1 e.symm
+  have e2 : ('/' == c) = false := by simpa using fun e => h2 e.symm
+  simp [startsWithComment, dashDash, slashStar, List.isPrefixOf, e1, e2]
+
+theorem takeComments_none (fuel : Nat) (s : Str) (acc : List Str) (h : startsWithComment s = false) :
+    takeComments (fuel + 1) s acc = .ok (s, acc) := by
+  simp [takeComments, h]
 
 theorem lstrip_ws (t : Str) (ht : ∀ c tl, t = c :: tl → isSpace c = false) :
     ∀ g : Str, Ws g → lstrip (g ++ t) = t
@@ -574,17 +641,240 @@ theorem lstrip_ws (t : Str) (ht : ∀ c tl, t = c :: tl → isSpace c = false) :
       rw [List.cons_append, Proofs.Schema.lstrip_cons_space x _ (hg x (List.mem_cons_self ..))]
       exact lstrip_ws t ht xs (fun c hc => hg c (List.mem_cons_of_mem _ hc))
 
+/-- skipping a gap: `lstrip` and the comment loop on a gap followed by `t` (which does not begin with
+whitespace) arrive at `t` with the gap's comments collected -/
+theorem takeComments_gap (g : Str) (hg : Gap g) : ∀ (t : Str) (acc : List Str), (∀ c tl, t = c :: tl → isSpace c = false) →
+    ∃ cs, takeComments ((lstrip (g ++ t)).length + 1) (lstrip (g ++ t)) acc = takeComments (t.length + 1) t (acc ++ cs) := by
+  induction hg with
+  | ws w h =>
+      intro t acc ht
+      refine ⟨[], ?_⟩
+      rw [lstrip_ws t ht w h, List.append_nil]
+  | block w b rest hw hb _ ih =>
+      intro t acc ht
+      obtain ⟨cs, hcs⟩ := ih t (acc ++ [rstrip ('/' :: '*' :: b ++ ['*', '/'])]) ht
+      refine ⟨rstrip ('/' :: '*' :: b ++ ['*', '/']) :: cs, ?_⟩
+      have e : (w ++ '/' :: '*' :: (b ++ '*' :: '/' :: rest)) ++ t = w ++ ('/' :: '*' :: b ++ '*' :: '/' :: (rest ++ t)) := by simp
+      have hl : lstrip (w ++ ('/' :: '*' :: b ++ '*' :: '/' :: (rest ++ t))) = '/' :: '*' :: b ++ '*' :: '/' :: (rest ++ t) :=
+        lstrip_ws _ (fun c tl e => by simp only [List.cons_append, List.cons.injEq] at e; rw [← e.1]; decide) w hw
+      have hp := Proofs.Schema.parseComment_block b (rest ++ t) hb
+      have hs : startsWithComment ('/' :: '*' :: b ++ '*' :: '/' :: (rest ++ t)) = true := by
+        simp [startsWithComment, slashStar, List.isPrefixOf]
+      rw [e, hl, takeComments]
+      simp only [hs, if_true, hp, ok_bind]
+      rw [takeComments_fuel _ ((lstrip (rest ++ t)).length + 1) (lstrip (rest ++ t)) _
+        (by have := lstrip_length_le (rest ++ t); simp only [List.length_append, List.length_cons] at this ⊢; omega)
+        (Nat.lt_succ_self _), hcs]
+      simp
+  | line w b rest hw hb _ ih =>
+      intro t acc ht
+      obtain ⟨cs, hcs⟩ := ih t (acc ++ [rstrip ('-' :: '-' :: (b ++ ['\n']))]) ht
+      refine ⟨rstrip ('-' :: '-' :: (b ++ ['\n'])) :: cs, ?_⟩
+      have e : (w ++ '-' :: '-' :: (b ++ '\n' :: rest)) ++ t = w ++ ('-' :: '-' :: (b ++ '\n' :: (rest ++ t))) := by simp
+      have hl : lstrip (w ++ ('-' :: '-' :: (b ++ '\n' :: (rest ++ t)))) = '-' :: '-' :: (b ++ '\n' :: (rest ++ t)) :=
+        lstrip_ws _ (fun c tl e => by simp only [List.cons.injEq] at e; rw [← e.1]; decide) w hw
+      have hp := parseComment_line b (rest ++ t) hb
+      have hs : startsWithComment ('-' :: '-' :: (b ++ '\n' :: (rest ++ t))) = true := by
+        simp [startsWithComment, dashDash, List.isPrefixOf]
+      rw [e, hl, takeComments]
+      simp only [hs, if_true, hp, ok_bind]
+      rw [takeComments_fuel _ ((lstrip (rest ++ t)).length + 1) (lstrip (rest ++ t)) _
+        (by have := lstrip_length_le (rest ++ t); simp only [List.length_append, List.length_cons] at this ⊢; omega)
+        (Nat.lt_succ_self _), hcs]
+      simp
+
+/-! ### reading a name -/
+
+theorem plain_facts (x : Char) (h : plainChar x = true) :
+    isSpace x = false ∧ x ≠ '(' ∧ x ≠ '-' ∧ x ≠ '/' ∧ x ≠ '.' ∧ x ≠ '[' ∧ x ≠ '`' ∧ x ≠ '\'' ∧ x ≠ '"' := by
+  simp only [plainChar, Bool.and_eq_true, Bool.not_eq_true', bne_iff_ne, ne_eq] at h
+  obtain ⟨⟨⟨⟨⟨⟨⟨⟨a0, a1⟩, a2⟩, a3⟩, a4⟩, a5⟩, a6⟩, a7⟩, a8⟩ := h
+  exact ⟨a0, a1, a2, a3, a4, a5, a6, a7, a8⟩
+
+/-- where a name written without quotes may stop: at whitespace, at "(", or at the beginning of a comment -/
+def Stop (c : Char) (tl : Str) : Prop :=
+  isSpace c = true ∨ c = '(' ∨ (c = '-' ∧ tl.head? = some '-') ∨ (c = '/' ∧ tl.head? = some '*')
+
+/-- the text after a name written without quotes begins with a `Stop` -/
+def Term (rest : Str) : Prop := ∃ c tl, rest = c :: tl ∧ Stop c tl
+
+theorem unquotedName_plain (e : Bool) (c : Char) (tl : Str) (hc : Stop c tl) :
+    ∀ (n acc : Str), (∀ x ∈ n, plainChar x = true) → unquotedName e acc (n ++ c :: tl) = .ok (acc.reverse ++ n, c :: tl)
+  | [], acc, _ => by
+      rcases hc with h | h | ⟨h, hd⟩ | ⟨h, hd⟩
+      · have := Proofs.Schema.space_not_comment c h
+        simp [unquotedName, h, this.1, this.2]
+      · subst h; simp [unquotedName]
+      · subst h
+        cases tl with
+        | nil => cases hd
+        | cons d ds =>
+          have : d = '-' := by simpa using hd
+          subst this; simp [unquotedName]
+      · subst h
+        cases tl with
+        | nil => cases hd
+        | cons d ds =>
+          have : d = '*' := by simpa using hd
+          subst this; simp [unquotedName]
+  | x :: xs, acc, h => by
+      obtain ⟨a0, a1, a2, a3, a4, _⟩ := plain_facts x (h x (List.mem_cons_self ..))
+      have h1 : (isSpace x || x == '(' || x == '-' || x == '/') = false := by simp [a0, a1, a2, a3]
+      have h2 : (x == '.') = false := by simp [a4]
+      simp only [List.cons_append, unquotedName, h1, h2, Bool.false_eq_true, if_false]
+      rw [unquotedName_plain e c tl hc xs (x :: acc) (fun y hy => h y (List.mem_cons_of_mem _ hy))]
+      simp
+
+/-- with `name_may_end_statement` a name written without quotes may also be the last thing in the text -/
+theorem unquotedName_plain_end : ∀ (n acc : Str), (∀ x ∈ n, plainChar x = true) →
+    unquotedName true acc n = .ok (acc.reverse ++ n, [])
+  | [], acc, _ => by simp [unquotedName]
+  | x :: xs, acc, h => by
+      obtain ⟨a0, a1, a2, a3, a4, _⟩ := plain_facts x (h x (List.mem_cons_self ..))
+      have h1 : (isSpace x || x == '(' || x == '-' || x == '/') = false := by simp [a0, a1, a2, a3]
+      have h2 : (x == '.') = false := by simp [a4]
+      simp only [unquotedName, h1, h2, Bool.false_eq_true, if_false]
+      rw [unquotedName_plain_end xs (x :: acc) (fun y hy => h y (List.mem_cons_of_mem _ hy))]
+      simp
+
+theorem quotedName_plain (a : Char) (tl : Str) (h : plainChar a = true) : quotedName (a :: tl) = none := by
+  obtain ⟨_, _, _, _, _, a5, a6, a7, a8⟩ := plain_facts a h
+  simp [quotedName, isQuoteChar, a5, a6, a7, a8]
+
+theorem quote_facts (q : Char) (hq : isQuote q = true) : isSpace q = false ∧ isBlank q = false := by
+  simp only [isQuote, Bool.or_eq_true, beq_iff_eq] at hq
+  rcases hq with (h | h) | h <;> subst h <;> decide
+
+theorem rowName_quoted (e : Bool) (q : Char) (hq : isQuote q = true) (name r : Str) (hr : r.head? ≠ some q) :
+    rowNameAndRest (quoteName q name ++ r) e = .ok (name, r) := by
+  have h := Proofs.Schema.quotedName_quoteName q hq name r hr
+  have ht : quoteName q name ++ r = q :: (escapeQuote q name ++ q :: r) := by simp [quoteName]
+  have hd : (quoteName q name ++ r).drop (quoteName q name).length = r := List.drop_left' rfl
+  rw [ht] at h hd
+  rw [ht, rowNameAndRest]
+  simp only [h, hd]
+
+theorem rowName_bracket (e : Bool) (n r : Str) (hn : ']' ∉ n) :
+    rowNameAndRest ('[' :: n ++ ']' :: r) e = .ok (n, r) := by
+  have h := Proofs.Schema.quotedName_bracket n r hn
+  have hd := Proofs.Schema.drop_bracket n r
+  simp only [List.cons_append] at h hd ⊢
+  rw [rowNameAndRest]
+  simp only [h, hd]
+
+/-- the name reader on any spelling of `n`, followed by a `Term` when written plainly (or, with
+`name_may_end_statement`, by nothing) and not by its own quote character when quoted -/
+theorem rowName_written (e : Bool) (n w rest : Str) (hw : Written n w)
+    (hplain : w = n → Term rest ∨ (rest = [] ∧ e = true))
+    (hq : ∀ q, isQuote q = true → rest.head? ≠ some q) :
+    rowNameAndRest (w ++ rest) e = .ok (n, rest) := by
+  cases hw with
+  | quoted q hq' => exact rowName_quoted e q hq' n rest (hq q hq')
+  | bracket h =>
+      have := rowName_bracket e n rest h
+      simpa using this
+  | plain h =>
+      obtain ⟨hne, hall⟩ := h
+      cases n with
+      | nil => exact absurd rfl hne
+      | cons a as =>
+        have hqn : ∀ tl, quotedName (a :: tl) = none := fun tl => quotedName_plain a tl (hall a (List.mem_cons_self ..))
+        rcases hplain rfl with ⟨c, tl, hr, hc⟩ | ⟨hr, he⟩
+        · subst hr
+          have hu := unquotedName_plain e c tl hc (a :: as) [] hall
+          simp only [List.cons_append] at hu ⊢
+          rw [rowNameAndRest]
+          simp only [hqn]
+          simpa using hu
+        · subst hr; subst he
+          have hu := unquotedName_plain_end (a :: as) [] hall
+          simp only [List.append_nil]
+          rw [rowNameAndRest]
+          simp only [hqn]
+          simpa using hu
+
+theorem written_head (n w : Str) (hw : Written n w) :
+    ∃ c tl, w = c :: tl ∧ isSpace c = false ∧ isBlank c = false ∧ c ≠ '-' ∧ c ≠ '/' := by
+  cases hw with
+  | quoted q hq =>
+      refine ⟨q, _, rfl, (quote_facts q hq).1, (quote_facts q hq).2, ?_, ?_⟩ <;> (intro e; subst e; cases hq)
+  | bracket h => exact ⟨'[', _, rfl, by decide, by decide, by decide, by decide⟩
+  | plain h =>
+      obtain ⟨hne, hall⟩ := h
+      cases n with
+      | nil => exact absurd rfl hne
+      | cons a as =>
+        obtain ⟨a0, _, a2, a3, _⟩ := plain_facts a (hall a (List.mem_cons_self ..))
+        exact ⟨a, as, rfl, a0, not_space_not_blank a a0, a2, a3⟩
+
 theorem lowerNe_self (a : Str) : lowerNe a a = .ok false := by simp [lowerNe]
 
-theorem startsWithComment_head (c : Char) (tl : Str) (h1 : c ≠ '-') (h2 : c ≠ '/') :
-    startsWithComment (c :: tl) = false := by
-  have e1 : ('-' == c) = false := by simpa using fun e => h1 e.symm
-  have e2 : ('/' == c) = false := by simpa using fun e => h2 e.symm
-  simp [startsWithComment, dashDash, slashStar, List.isPrefixOf, e1, e2]
+/-- how a non-empty gap begins -/
+theorem gap_head (g : Str) (hg : Gap g) (hne : g ≠ []) : ∃ c tl, g = c :: tl ∧ Stop c tl := by
+  induction hg with
+  | ws w h =>
+      cases w with
+      | nil => exact absurd rfl hne
+      | cons x xs => exact ⟨x, xs, rfl, Or.inl (h x (List.mem_cons_self ..))⟩
+  | block w b rest hw hb hr _ =>
+      cases w with
+      | nil => exact ⟨'/', _, rfl, Or.inr (Or.inr (Or.inr ⟨rfl, rfl⟩))⟩
+      | cons x xs => exact ⟨x, _, rfl, Or.inl (hw x (List.mem_cons_self ..))⟩
+  | line w b rest hw hb hr _ =>
+      cases w with
+      | nil => exact ⟨'-', _, rfl, Or.inr (Or.inr (Or.inl ⟨rfl, rfl⟩))⟩
+      | cons x xs => exact ⟨x, _, rfl, Or.inl (hw x (List.mem_cons_self ..))⟩
 
-theorem takeComments_none (fuel : Nat) (s : Str) (acc : List Str) (h : startsWithComment s = false) :
-    takeComments (fuel + 1) s acc = .ok (s, acc) := by
-  simp [takeComments, h]
+theorem stop_append (c : Char) (tl t : Str) (h : Stop c tl) : Stop c (tl ++ t) := by
+  rcases h with h | h | ⟨h, hd⟩ | ⟨h, hd⟩
+  · exact Or.inl h
+  · exact Or.inr (Or.inl h)
+  · cases tl with
+    | nil => cases hd
+    | cons d ds => exact Or.inr (Or.inr (Or.inl ⟨h, hd⟩))
+  · cases tl with
+    | nil => cases hd
+    | cons d ds => exact Or.inr (Or.inr (Or.inr ⟨h, hd⟩))
+
+/-- a gap followed by a text that begins with the character `c0`: its first character is a `Stop` or `c0` -/
+theorem gap_then (g : Str) (hg : Gap g) (c0 : Char) (t' : Str) :
+    ∃ c tl, g ++ c0 :: t' = c :: tl ∧ (Stop c tl ∨ (g = [] ∧ c = c0)) := by
+  cases g with
+  | nil => exact ⟨c0, t', rfl, Or.inr ⟨rfl, rfl⟩⟩
+  | cons x xs =>
+      obtain ⟨c, tl, e, hs⟩ := gap_head (x :: xs) hg (by simp)
+      exact ⟨c, tl ++ c0 :: t', by rw [e]; rfl, Or.inl (stop_append c tl _ hs)⟩
+
+theorem quote_not_letter (q : Char) (hq : isQuote q = true) : ¬ letter q := by
+  simp only [isQuote, Bool.or_eq_true, beq_iff_eq] at hq
+  rcases hq with (h | h) | h <;> subst h <;> (unfold letter; decide)
+
+theorem stop_not_quote (q c : Char) (tl : Str) (hq : isQuote q = true) (hc : Stop c tl) : c ≠ q := by
+  intro e; subst e
+  rcases hc with h | h | ⟨h, _⟩ | ⟨h, _⟩
+  · rw [(quote_facts c hq).1] at h; cases h
+  · subst h; cases hq
+  · subst h; cases hq
+  · subst h; cases hq
+
+/-- after a name and a gap comes `c0` (a letter or "("): the hypotheses of `rowName_written` -/
+theorem after_name (g : Str) (hg : Gap g) (c0 : Char) (t' : Str) (hc0 : letter c0 ∨ c0 = '(') :
+    (g ≠ [] ∨ c0 = '(' → Term (g ++ c0 :: t')) ∧ ∀ q, isQuote q = true → (g ++ c0 :: t').head? ≠ some q := by
+  obtain ⟨c, tl, e, hs⟩ := gap_then g hg c0 t'
+  refine ⟨fun h => ?_, fun q hq => ?_⟩
+  · rcases hs with hs | ⟨hg0, hcc⟩
+    · exact ⟨c, tl, e, hs⟩
+    · rcases h with h | h
+      · exact absurd hg0 h
+      · exact ⟨c, tl, e, Or.inr (Or.inl (hcc.trans h))⟩
+  · rw [e]
+    simp only [List.head?_cons, ne_eq, Option.some.injEq]
+    rcases hs with hs | ⟨_, hcc⟩
+    · exact stop_not_quote q c tl hq hs
+    · subst hcc
+      rcases hc0 with h | h
+      · intro e2; subst e2; exact quote_not_letter c hq h
+      · subst h; intro e2; subst e2; cases hq
 
 theorem parenthesised_of_close (r : Str) (close : Nat) (hh : r.head? = some '(') (hc : closingParen r = .ok close) :
     parenthesised (r.take (close + 1)) = true := by
@@ -601,125 +891,209 @@ theorem parenthesised_of_close (r : Str) (close : Nat) (hh : r.head? = some '(')
     rw [List.head?_take]; simp [hh]
   simp [parenthesised, hl, hd]
 
-/-! ### the indexed columns, the module arguments -/
+/-! ### the whitespace collapse and comments -/
 
-theorem indexCols_ok (r : Str) (h : IndexColsOk r) : ∃ p, indexCols r = .ok (p, []) := by
-  obtain ⟨hh, close, hc, ht⟩ := h
-  have hs : startsWithComment r = false := by
-    cases r with
-    | nil => cases hh
-    | cons c tl =>
-      have : c = '(' := by simpa using hh
-      subst this; exact startsWithComment_head _ tl (by decide) (by decide)
-  have hp := parenthesised_of_close r close hh hc
-  unfold indexCols
-  rw [takeComments_none _ r [] hs]
-  simp only [ok_bind, hc, hp, Bool.not_true, Bool.false_eq_true, if_false]
-  rcases ht with ht | ht
-  · rw [ht]
-    exact ⟨false, by simp [takeComments, startsWithComment, dashDash, slashStar, ok_bind]⟩
-  · generalize lstrip (r.drop (close + 1)) = t at ht
-    cases t with
-    | nil => exact ⟨false, by simp [takeComments, startsWithComment, dashDash, slashStar, ok_bind]⟩
-    | cons c tl =>
-      have hcW : upperC c = 'W' := by
-        have := congrArg List.head? ht
-        simpa [upper, kWHERE] using this
-      have hl := upperC_letter c 'W' (by decide) hcW
-      have hs2 : startsWithComment (c :: tl) = false :=
-        startsWithComment_head c tl (letter_ne c _ hl (by unfold letter; decide)) (letter_ne c _ hl (by unfold letter; decide))
-      rw [takeComments_none _ _ _ hs2]
-      refine ⟨true, ?_⟩
-      have ht' : upper (c :: List.take 4 tl) = kWHERE := by simpa using ht
-      simp [ok_bind, ht']
+theorem single_prefix (y : Char) (o : Str) : [y].isPrefixOf o = (o.head? == some y) := by
+  cases o with
+  | nil => rfl
+  | cons b bs =>
+      simp only [List.isPrefixOf, Bool.and_true, List.head?_cons]
+      by_cases h : y = b
+      · subst h; simp
+      · have h1 : (y == b) = false := by simpa using h
+        have h2 : (b == y) = false := by simpa using fun e : b = y => h e.symm
+        simp [h1, h2]
 
-theorem virtualArgs_ok (r : Str) (h : ModuleArgsOk r) :
-    (do let (rem, cs) ← takeComments (r.length + 1) r ([] : List Str)
-        let close ← closingParen rem
-        if !parenthesised (rem.take (close + 1)) then (.error .parseError : Py (List Str))
-        else if !(lstrip (rem.drop (close + 1))).isEmpty then .error .parseError
-        else .ok cs) = .ok [] := by
-  obtain ⟨hh, close, hc, ht⟩ := h
-  have hs : startsWithComment r = false := by
-    cases r with
-    | nil => cases hh
-    | cons c tl =>
-      have : c = '(' := by simpa using hh
-      subst this; exact startsWithComment_head _ tl (by decide) (by decide)
-  have hp := parenthesised_of_close r close hh hc
-  rw [takeComments_none _ r [] hs]
-  simp [ok_bind, hc, hp, ht]
+theorem pair_hasSub (x y a : Char) (o : Str) :
+    hasSub [x, y] (a :: o) = ((x == a && (o.head? == some y)) || hasSub [x, y] o) := by
+  rw [hasSub, List.isPrefixOf, single_prefix]
 
+/-- the collapse neither makes nor breaks a pair of neighbouring non-blank characters (`*/`, for one) -/
+theorem collapse_pair (x y : Char) (hx : isBlank x = false) (hy : isBlank y = false) : ∀ s : Str,
+    (hasSub [x, y] (collapseGo isBlank none s) = hasSub [x, y] s ∧
+      ((collapseGo isBlank none s).head? == some y) = (s.head? == some y)) ∧
+    (∀ c m, isBlank c = true → hasSub [x, y] (collapseGo isBlank (some (c, m)) s) = hasSub [x, y] s ∧
+      ∃ d o, collapseGo isBlank (some (c, m)) s = d :: o ∧ isBlank d = true)
+  | [] => by
+      refine ⟨⟨rfl, rfl⟩, fun c m hc => ?_⟩
+      have hd : isBlank (if m then ' ' else c) = true := by cases m <;> simp [hc] <;> decide
+      refine ⟨?_, _, [], rfl, hd⟩
+      simp only [collapseGo, pair_hasSub, List.head?_nil]
+      simp [hasSub]
+  | a :: as => by
+      obtain ⟨⟨ih1, ih2⟩, ih3⟩ := collapse_pair x y hx hy as
+      have ne_of_blank : ∀ d : Char, isBlank d = true → (x == d) = false ∧ ((some d == some y) = false) := by
+        intro d hd
+        constructor
+        · simp only [beq_eq_false_iff_ne, ne_eq]; intro e; subst e; rw [hx] at hd; cases hd
+        · simp only [beq_eq_false_iff_ne, ne_eq, Option.some.injEq]; intro e; subst e; rw [hy] at hd; cases hd
+      cases ha : isBlank a with
+      | true =>
+          refine ⟨⟨?_, ?_⟩, fun c m hc => ?_⟩
+          · simp only [collapseGo, ha, if_true]
+            rw [(ih3 a false ha).1, pair_hasSub, (ne_of_blank a ha).1]; simp
+          · simp only [collapseGo, ha, if_true]
+            obtain ⟨d, o, e, hd⟩ := (ih3 a false ha).2
+            rw [e]
+            simp only [List.head?_cons, (ne_of_blank d hd).2, (ne_of_blank a ha).2]
+          · simp only [collapseGo, ha, if_true]
+            refine ⟨?_, (ih3 c true hc).2⟩
+            rw [(ih3 c true hc).1, pair_hasSub, (ne_of_blank a ha).1]; simp
+      | false =>
+          have key : hasSub [x, y] (a :: collapseGo isBlank none as) = hasSub [x, y] (a :: as) := by
+            rw [pair_hasSub, pair_hasSub, ih1, ih2]
+          refine ⟨⟨?_, ?_⟩, fun c m hc => ?_⟩
+          · simp only [collapseGo, ha, Bool.false_eq_true, if_false]; exact key
+          · simp only [collapseGo, ha, Bool.false_eq_true, if_false, List.head?_cons]
+          · have hd : isBlank (if m then ' ' else c) = true := by cases m <;> simp [hc] <;> decide
+            simp only [collapseGo, ha, Bool.false_eq_true, if_false]
+            refine ⟨?_, _, _, rfl, hd⟩
+            rw [pair_hasSub, (ne_of_blank _ hd).1, key]; simp
 
-/-! ### index rows: the names -/
+theorem collapse_starSlash (b : Str) (h : hasSub starSlash b = false) : hasSub starSlash (collapse isBlank b) = false := by
+  have := (collapse_pair '*' '/' (by decide) (by decide) b).1.1
+  unfold collapse starSlash at *
+  rw [this]; exact h
 
-theorem gap_then (G : Str) (hG : Ws G) (c0 : Char) (t' : Str) :
-    ∃ c tl, G ++ c0 :: t' = c :: tl ∧ (isSpace c = true ∨ c = c0) := by
-  cases G with
-  | nil => exact ⟨c0, t', rfl, Or.inr rfl⟩
-  | cons g gs => exact ⟨g, gs ++ c0 :: t', rfl, Or.inl (hG g (List.mem_cons_self ..))⟩
+theorem collapse_no_newline (b : Str) (h : '\n' ∉ b) : '\n' ∉ collapse isBlank b := by
+  intro hm
+  rcases collapseGo_mem isBlank b none '\n' hm with h1 | h1 | ⟨x, m, h1, _⟩
+  · exact h h1
+  · cases h1
+  · cases h1
 
-theorem quote_not_letter (q : Char) (hq : isQuote q = true) : ¬ letter q := by
-  simp only [isQuote, Bool.or_eq_true, beq_iff_eq] at hq
-  rcases hq with (h | h) | h <;> subst h <;> (unfold letter; decide)
-
-theorem quote_ne_of (q c : Char) (hq : isQuote q = true) (hc : isSpace c = true ∨ letter c ∨ c = '(') : c ≠ q := by
-  intro e; subst e
-  rcases hc with h | h | h
-  · rw [(quote_facts c hq).1] at h; cases h
-  · exact quote_not_letter c hq h
-  · subst h; cases hq
-
-theorem indexNames_ok (name tbl Wi Wt G1 G2 G3 R : Str) (o n : Char)
-    (hWi : Written name Wi) (hWt : Written tbl Wt) (hG1 : Ws G1) (hG1ne : Wi = name → G1 ≠ [])
-    (ho : upperC o = 'O') (hn : upperC n = 'N') (hG2 : Ws G2) (hG3 : Ws G3) (hR : R.head? = some '(') :
-    indexNames name tbl (Wi ++ (G1 ++ o :: n :: (G2 ++ (Wt ++ (G3 ++ R))))) = .ok R := by
-  have lo := upperC_letter o 'O' (by decide) ho
-  obtain ⟨r0, R', hR'⟩ : ∃ r0 R', R = r0 :: R' := by
-    cases R with
-    | nil => cases hR
-    | cons a as => exact ⟨a, as, rfl⟩
-  have hr0 : r0 = '(' := by subst hR'; simpa using hR
-  subst hr0
-  -- the index name
-  have h1 : rowNameAndRest (Wi ++ (G1 ++ o :: n :: (G2 ++ (Wt ++ (G3 ++ R))))) =
-      .ok (name, G1 ++ o :: n :: (G2 ++ (Wt ++ (G3 ++ R)))) := by
-    apply rowName_written name Wi _ hWi
-    · intro e
-      cases G1 with
-      | nil => exact absurd rfl (hG1ne e)
-      | cons g gs => exact ⟨g, _, rfl, Or.inl (hG1 g (List.mem_cons_self ..))⟩
-    · intro q hq
-      obtain ⟨c, tl, e, hc⟩ := gap_then G1 hG1 o (n :: (G2 ++ (Wt ++ (G3 ++ R))))
+/-- the collapse of a gap is a gap (with the comments collapsed inside), empty only if the gap is -/
+theorem collapse_gap (g : Str) (hg : Gap g) : Gap (collapse isBlank g) := by
+  induction hg with
+  | ws w h => exact .ws _ (collapse_ws w h).1
+  | block w b rest hw hb _ ih =>
+      have e : collapse isBlank (w ++ '/' :: '*' :: (b ++ '*' :: '/' :: rest)) =
+          collapse isBlank w ++ '/' :: '*' :: (collapse isBlank b ++ '*' :: '/' :: collapse isBlank rest) := by
+        rw [collapse_append_nonblank isBlank w '/' _ (by decide), collapse_cons_nonblank isBlank '*' _ (by decide),
+          collapse_append_nonblank isBlank b '*' _ (by decide), collapse_cons_nonblank isBlank '/' _ (by decide)]
       rw [e]
-      simp only [List.head?_cons, ne_eq, Option.some.injEq]
-      exact quote_ne_of q c hq (by rcases hc with h | h; exact Or.inl h; exact Or.inr (Or.inl (h ▸ lo)))
-  have h2 : lstrip (G1 ++ o :: n :: (G2 ++ (Wt ++ (G3 ++ R)))) = o :: n :: (G2 ++ (Wt ++ (G3 ++ R))) :=
-    lstrip_ws _ (fun c tl e => by cases e; exact letter_not_space _ lo) G1 hG1
+      exact .block _ _ _ (collapse_ws w hw).1 (collapse_starSlash b hb) ih
+  | line w b rest hw hb _ ih =>
+      have e : collapse isBlank (w ++ '-' :: '-' :: (b ++ '\n' :: rest)) =
+          collapse isBlank w ++ '-' :: '-' :: (collapse isBlank b ++ '\n' :: collapse isBlank rest) := by
+        rw [collapse_append_nonblank isBlank w '-' _ (by decide), collapse_cons_nonblank isBlank '-' _ (by decide),
+          collapse_append_nonblank isBlank b '\n' _ (by decide)]
+      rw [e]
+      exact .line _ _ _ (collapse_ws w hw).1 (collapse_no_newline b hb) ih
+
+theorem collapse_ne (g : Str) (h : g ≠ []) : collapse isBlank g ≠ [] :=
+  fun e => h (collapseGo_nonempty isBlank g none e).1
+
+/-! ### index rows -/
+
+theorem paren_solid (R : Str) (hR : R.head? = some '(') :
+    (∀ c tl, R = c :: tl → isSpace c = false) ∧ startsWithComment R = false ∧ ∃ R', R = '(' :: R' := by
+  cases R with
+  | nil => cases hR
+  | cons a as =>
+      have : a = '(' := by simpa using hR
+      subst this
+      exact ⟨(fun c tl e => by cases e; decide), startsWithComment_head _ as (by decide) (by decide), as, rfl⟩
+
+/-- the end of an index statement after the gap that follows the indexed columns -/
+theorem tailEnd_ok (e : Str) (he : TailEnd e) (acc : List Str) :
+    (∀ c tl, e = c :: tl → isSpace c = false) ∧
+    ∃ p cs, (do
+        let (rem, cs) ← takeComments (e.length + 1) e acc
+        if rem.isEmpty then (.ok (false, cs) : Py (Bool × List Str))
+        else if upper (rem.take 5) != kWHERE then .error .parseError
+        else .ok (true, cs)) = .ok (p, acc ++ cs) := by
+  induction he with
+  | nothing =>
+      refine ⟨(fun c tl e => by cases e), false, [], ?_⟩
+      simp [takeComments, startsWithComment, dashDash, slashStar, ok_bind]
+  | whereClause t ht =>
+      cases t with
+      | nil => simp [upper, kWHERE] at ht
+      | cons c tl =>
+        have hcW : upperC c = 'W' := by
+          have := congrArg List.head? ht
+          simpa [upper, kWHERE] using this
+        have hl := upperC_letter c 'W' (by decide) hcW
+        have hs : startsWithComment (c :: tl) = false :=
+          startsWithComment_head c tl (letter_ne c _ hl (by unfold letter; decide)) (letter_ne c _ hl (by unfold letter; decide))
+        refine ⟨(fun c' tl' e => by cases e; exact letter_not_space _ hl), true, [], ?_⟩
+        rw [takeComments_none _ _ _ hs]
+        have ht' : upper (c :: List.take 4 tl) = kWHERE := by simpa using ht
+        simp [ok_bind, ht']
+  | openLine b hb =>
+      refine ⟨(fun c tl e => by cases e; decide), false, [rstrip ('-' :: '-' :: b)], ?_⟩
+      have hs : startsWithComment ('-' :: '-' :: b) = true := by simp [startsWithComment, dashDash, List.isPrefixOf]
+      rw [takeComments]
+      simp only [hs, if_true, parseComment_openLine b hb, ok_bind]
+      simp [lstrip, takeComments, startsWithComment, dashDash, slashStar, ok_bind]
+  | openBlock b hb =>
+      refine ⟨(fun c tl e => by cases e; decide), false, [rstrip ('/' :: '*' :: b)], ?_⟩
+      have hs : startsWithComment ('/' :: '*' :: b) = true := by simp [startsWithComment, slashStar, List.isPrefixOf]
+      rw [takeComments]
+      simp only [hs, if_true, parseComment_openBlock b hb, ok_bind]
+      simp [lstrip, takeComments, startsWithComment, dashDash, slashStar, ok_bind]
+
+theorem indexTail_ok (t : Str) (h : IndexTailOk t) (acc : List Str) : ∃ p cs, indexTail t acc = .ok (p, acc ++ cs) := by
+  obtain ⟨g, e, hg, he, rfl⟩ := h
+  obtain ⟨hsolid, _⟩ := tailEnd_ok e he acc
+  obtain ⟨cs1, h1⟩ := takeComments_gap g hg e acc hsolid
+  obtain ⟨_, p, cs2, h2⟩ := tailEnd_ok e he (acc ++ cs1)
+  refine ⟨p, cs1 ++ cs2, ?_⟩
+  rw [List.append_assoc] at h2
+  unfold indexTail
+  dsimp only
+  rw [h1]
+  exact h2
+
+/-- a gap, then the parenthesised indexed columns and what may follow them -/
+theorem indexCols_ok (G3 R : Str) (hG3 : Gap G3) (h : IndexColsOk R) (acc : List Str) :
+    ∃ p cs, indexCols (lstrip (G3 ++ R)) acc = .ok (p, acc ++ cs) := by
+  obtain ⟨hh, close, hc, ht⟩ := h
+  obtain ⟨hsolid, hs, _⟩ := paren_solid R hh
+  obtain ⟨cs1, h1⟩ := takeComments_gap G3 hG3 R acc hsolid
+  obtain ⟨p, cs2, h2⟩ := indexTail_ok _ ht (acc ++ cs1)
+  have hp := parenthesised_of_close R close hh hc
+  refine ⟨p, cs1 ++ cs2, ?_⟩
+  unfold indexCols
+  rw [h1, takeComments_none _ R _ hs]
+  simp only [ok_bind, hc, hp, Bool.not_true, Bool.false_eq_true, if_false, h2, List.append_assoc]
+
+/-- the index name, ON and the table name, with a gap (whitespace, comments) after each -/
+theorem indexNames_ok (name tbl Wi Wt G1 G2 G3 R : Str) (o n : Char)
+    (hWi : Written name Wi) (hWt : Written tbl Wt) (hG1 : Gap G1) (hG1ne : Wi = name → G1 ≠ [])
+    (ho : upperC o = 'O') (hn : upperC n = 'N') (hG2 : Gap G2) (hG3 : Gap G3) (hR : R.head? = some '(') :
+    ∃ cs, indexNames name tbl (Wi ++ (G1 ++ o :: n :: (G2 ++ (Wt ++ (G3 ++ R))))) = .ok (lstrip (G3 ++ R), cs) := by
+  have lo := upperC_letter o 'O' (by decide) ho
+  obtain ⟨_, _, R', hR'⟩ := paren_solid R hR
+  obtain ⟨ht1, hq1⟩ := after_name G1 hG1 o (n :: (G2 ++ (Wt ++ (G3 ++ R)))) (Or.inl lo)
+  have h1 : rowNameAndRest (Wi ++ (G1 ++ o :: n :: (G2 ++ (Wt ++ (G3 ++ R))))) =
+      .ok (name, G1 ++ o :: n :: (G2 ++ (Wt ++ (G3 ++ R)))) :=
+    rowName_written false name Wi _ hWi (fun e => Or.inl (ht1 (Or.inl (hG1ne e)))) hq1
+  have so : ∀ c tl, o :: n :: (G2 ++ (Wt ++ (G3 ++ R))) = c :: tl → isSpace c = false :=
+    fun c tl e => by cases e; exact letter_not_space _ lo
+  obtain ⟨cs1, h2⟩ := takeComments_gap G1 hG1 (o :: n :: (G2 ++ (Wt ++ (G3 ++ R)))) [] so
+  have s2 : startsWithComment (o :: n :: (G2 ++ (Wt ++ (G3 ++ R)))) = false :=
+    startsWithComment_head o _ (letter_ne o _ lo (by unfold letter; decide)) (letter_ne o _ lo (by unfold letter; decide))
+  rw [takeComments_none _ _ _ s2, List.nil_append] at h2
   have h3 : upper ((o :: n :: (G2 ++ (Wt ++ (G3 ++ R)))).take 2) = kON := by
     simp [upper, kON, ho, hn]
-  obtain ⟨w0, wt, hw, hws, _⟩ := written_head tbl Wt hWt
-  have h4 : lstrip ((o :: n :: (G2 ++ (Wt ++ (G3 ++ R)))).drop 2) = Wt ++ (G3 ++ R) := by
-    show lstrip (G2 ++ (Wt ++ (G3 ++ R))) = _
-    exact lstrip_ws _ (fun c tl e => by rw [hw] at e; cases e; exact hws) G2 hG2
-  have h5 : rowNameAndRest (Wt ++ (G3 ++ R)) = .ok (tbl, G3 ++ R) := by
-    apply rowName_written tbl Wt _ hWt
-    · intro _
-      rw [hR']
-      exact gap_then G3 hG3 '(' R'
-    · intro q hq
-      obtain ⟨c, tl, e, hc⟩ := gap_then G3 hG3 '(' R'
-      rw [hR', e]
-      simp only [List.head?_cons, ne_eq, Option.some.injEq]
-      exact quote_ne_of q c hq (by rcases hc with h | h; exact Or.inl h; exact Or.inr (Or.inr h))
-  have h6 : lstrip (G3 ++ R) = R := by
-    rw [hR']
-    exact lstrip_ws _ (fun c tl e => by cases e; decide) G3 hG3
+  obtain ⟨w0, wt, hw, hws, _, hw1, hw2⟩ := written_head tbl Wt hWt
+  have sw : ∀ c tl, Wt ++ (G3 ++ R) = c :: tl → isSpace c = false :=
+    fun c tl e => by rw [hw] at e; cases e; exact hws
+  obtain ⟨cs2, h4⟩ := takeComments_gap G2 hG2 (Wt ++ (G3 ++ R)) cs1 sw
+  have s4 : startsWithComment (Wt ++ (G3 ++ R)) = false := by
+    rw [hw]; exact startsWithComment_head w0 _ hw1 hw2
+  rw [takeComments_none _ _ _ s4] at h4
+  have h4' : takeComments ((lstrip ((o :: n :: (G2 ++ (Wt ++ (G3 ++ R)))).drop 2)).length + 1)
+      (lstrip ((o :: n :: (G2 ++ (Wt ++ (G3 ++ R)))).drop 2)) cs1 = .ok (Wt ++ (G3 ++ R), cs1 ++ cs2) := h4
+  obtain ⟨ht5, hq5⟩ := after_name G3 hG3 '(' R' (Or.inr rfl)
+  rw [← hR'] at ht5 hq5
+  have h5 : rowNameAndRest (Wt ++ (G3 ++ R)) = .ok (tbl, G3 ++ R) :=
+    rowName_written false tbl Wt _ hWt (fun _ => Or.inl (ht5 (Or.inr rfl))) hq5
+  refine ⟨cs1 ++ cs2, ?_⟩
   unfold indexNames
-  simp only [h1, ok_bind, h2, h3, bne_self_eq_false, Bool.false_eq_true, if_false, h4, h5, h6, lowerNe_self]
-
-
-/-! ### index rows: the whole statement -/
+  simp only [h1, ok_bind, h2, h3, bne_self_eq_false, Bool.false_eq_true, if_false, h4', h5, lowerNe_self]
 
 theorem indexPrefix_head (u : Bool) (x : Str) :
     indexPrefix (indexHead u ++ x) = .ok (u, (indexHead u).length - 1) ∧
@@ -727,13 +1101,13 @@ theorem indexPrefix_head (u : Bool) (x : Str) :
   cases u <;> simp [indexPrefix, indexHead, createIndex, createUniqueIndex, List.isPrefixOf]
 
 theorem indexCmd_shape (u : Bool) (name tbl Wi Wt G1 G2 G3 R : Str) (o n : Char)
-    (hWi : Written name Wi) (hWt : Written tbl Wt) (hG1 : Ws G1) (hG1ne : Wi = name → G1 ≠ [])
-    (ho : upperC o = 'O') (hn : upperC n = 'N') (hG2 : Ws G2) (hG3 : Ws G3) (hR : IndexColsOk R) :
-    ∃ p, indexCmd name tbl (indexSql u Wi G1 o n G2 Wt G3 R) = .ok (u, p, []) := by
-  obtain ⟨p, hp⟩ := indexCols_ok R hR
+    (hWi : Written name Wi) (hWt : Written tbl Wt) (hG1 : Gap G1) (hG1ne : Wi = name → G1 ≠ [])
+    (ho : upperC o = 'O') (hn : upperC n = 'N') (hG2 : Gap G2) (hG3 : Gap G3) (hR : IndexColsOk R) :
+    ∃ p cs, indexCmd name tbl (indexSql u Wi G1 o n G2 Wt G3 R) = .ok (u, p, cs) := by
   obtain ⟨h1, h2⟩ := indexPrefix_head u (Wi ++ (G1 ++ o :: n :: (G2 ++ (Wt ++ (G3 ++ R)))))
-  have h3 := indexNames_ok name tbl Wi Wt G1 G2 G3 R o n hWi hWt hG1 hG1ne ho hn hG2 hG3 hR.1
-  refine ⟨p, ?_⟩
+  obtain ⟨cs1, h3⟩ := indexNames_ok name tbl Wi Wt G1 G2 G3 R o n hWi hWt hG1 hG1ne ho hn hG2 hG3 hR.1
+  obtain ⟨p, cs2, hp⟩ := indexCols_ok G3 R hG3 hR cs1
+  refine ⟨p, cs1 ++ cs2, ?_⟩
   unfold indexCmd indexSql
   simp only [h1, ok_bind, h2, h3, hp]
 
@@ -772,12 +1146,9 @@ theorem collapse_indexSql (u : Bool) (name tbl Wi Wt G1 G2 G3 R : Str) (o n : Ch
       indexSql u Wi (collapse isBlank G1) o n (collapse isBlank G2) Wt (collapse isBlank G3) (collapse isBlank R) := by
   have lo := letter_not_blank o (upperC_letter o 'O' (by decide) ho)
   have ln := letter_not_blank n (upperC_letter n 'N' (by decide) hn)
-  obtain ⟨i0, it, hi, _, hib⟩ := written_head name Wi hWi
-  obtain ⟨w0, wt, hw, _, hwb⟩ := written_head tbl Wt hWt
-  obtain ⟨R', hR'⟩ : ∃ R', R = '(' :: R' := by
-    cases R with
-    | nil => cases hR
-    | cons a as => exact ⟨as, by simpa using hR⟩
+  obtain ⟨i0, it, hi, _, hib, _⟩ := written_head name Wi hWi
+  obtain ⟨w0, wt, hw, _, hwb, _⟩ := written_head tbl Wt hWt
+  obtain ⟨_, _, R', hR'⟩ := paren_solid R hR
   unfold indexSql
   rw [collapse_append_head isBlank _ _ (fun c tl e => by rw [hi] at e; cases e; exact hib) (by rw [hi]; simp),
     collapse_indexHead, collapse_written name Wi _ hWi hnb1,
@@ -794,20 +1165,20 @@ theorem indexSql_ne (u : Bool) (wi g1 : Str) (o n : Char) (g2 wt g3 r : Str) :
 theorem indexRow_shape (u : Bool) (name tbl Wi Wt G1 G2 G3 R : Str) (o n : Char) (root : Option Int)
     (tables : Tables) (wr : Bool) (hname : name ≠ []) (htbl : tbl ≠ [])
     (hWi : Written name Wi) (hWt : Written tbl Wt) (hnb1 : noBlankRun name = true) (hnb2 : noBlankRun tbl = true)
-    (hG1 : Ws G1) (hG1ne : Wi = name → G1 ≠ []) (ho : upperC o = 'O') (hn : upperC n = 'N') (hG2 : Ws G2) (hG3 : Ws G3)
+    (hG1 : Gap G1) (hG1ne : Wi = name → G1 ≠ []) (ho : upperC o = 'O') (hn : upperC n = 'N') (hG2 : Gap G2) (hG3 : Gap G3)
     (hR : R.head? = some '(') (hcols : IndexColsOk (collapse isBlank R))
     (hm1 : InModel name) (hm2 : InModel tbl) (hm3 : InModel (indexSql u Wi G1 o n G2 Wt G3 R))
     (hint : sqlitePrefix.isPrefixOf name = false) (htab : tables.find tbl = some (some wr)) :
-    ∃ p, indexRow ⟨kIndex, name, tbl, root, some (indexSql u Wi G1 o n G2 Wt G3 R)⟩ tables =
+    ∃ p cs, indexRow ⟨kIndex, name, tbl, root, some (indexSql u Wi G1 o n G2 Wt G3 R)⟩ tables =
       .ok ⟨⟨kIndex, name, tbl, root, some (indexSql u Wi G1 o n G2 Wt G3 R)⟩,
-           sqlHasComments (some (indexSql u Wi G1 o n G2 Wt G3 R)), .index false u p []⟩ := by
+           sqlHasComments (some (indexSql u Wi G1 o n G2 Wt G3 R)), .index false u p cs⟩ := by
   have hc := collapse_indexSql u name tbl Wi Wt G1 G2 G3 R o n hWi hWt hnb1 hnb2 ho hn hR
-  obtain ⟨p, hp⟩ := indexCmd_shape u name tbl Wi Wt (collapse isBlank G1) (collapse isBlank G2) (collapse isBlank G3)
-    (collapse isBlank R) o n hWi hWt (collapse_ws G1 hG1).1 (fun e => (collapse_ws G1 hG1).2 (hG1ne e)) ho hn
-    (collapse_ws G2 hG2).1 (collapse_ws G3 hG3).1 hcols
+  obtain ⟨p, cs, hp⟩ := indexCmd_shape u name tbl Wi Wt (collapse isBlank G1) (collapse isBlank G2) (collapse isBlank G3)
+    (collapse isBlank R) o n hWi hWt (collapse_gap G1 hG1) (fun e => collapse_ne G1 (hG1ne e)) ho hn
+    (collapse_gap G2 hG2) (collapse_gap G3 hG3) hcols
   rw [← hc] at hp
-  obtain ⟨c, cs, hsql⟩ := indexSql_ne u Wi G1 o n G2 Wt G3 R
-  refine ⟨p, ?_⟩
+  obtain ⟨c, cs', hsql⟩ := indexSql_ne u Wi G1 o n G2 Wt G3 R
+  refine ⟨p, cs, ?_⟩
   obtain ⟨a, as, rfl⟩ : ∃ a as, name = a :: as := by
     cases name with
     | nil => exact absurd rfl hname
@@ -829,19 +1200,6 @@ theorem indexRow_shape (u : Bool) (name tbl Wi Wt G1 G2 G3 R : Str) (o n : Char)
 
 /-! ### virtual table rows -/
 
-theorem written_head_nc (n w : Str) (hw : Written n w) : ∃ c tl, w = c :: tl ∧ c ≠ '-' ∧ c ≠ '/' := by
-  cases hw with
-  | quoted q hq =>
-      refine ⟨q, _, rfl, ?_, ?_⟩ <;> (intro e; subst e; cases hq)
-  | bracket h => exact ⟨'[', _, rfl, by decide, by decide⟩
-  | plain h =>
-      obtain ⟨hne, hall⟩ := h
-      cases n with
-      | nil => exact absurd rfl hne
-      | cons a as =>
-        obtain ⟨_, _, a2, a3, _⟩ := plain_facts a (hall a (List.mem_cons_self ..))
-        exact ⟨a, as, rfl, a2, a3⟩
-
 theorem using_word : ∀ (w : Str), upper w = kUSING →
     ∃ c1 c2 c3 c4 c5, w = [c1, c2, c3, c4, c5] ∧ letter c1 ∧ letter c2 ∧ letter c3 ∧ letter c4 ∧ letter c5
   | [c1, c2, c3, c4, c5], h => by
@@ -856,9 +1214,9 @@ theorem using_word : ∀ (w : Str), upper w = kUSING →
   | [_, _, _, _], h => by simp [upper, kUSING] at h
   | _ :: _ :: _ :: _ :: _ :: _ :: _, h => by simp [upper, kUSING] at h
 
-theorem virtualName_ok (name Wn G1 U rest : Str) (hWn : Written name Wn) (hG1 : Ws G1) (hG1ne : Wn = name → G1 ≠ [])
+theorem virtualName_ok (name Wn G1 U rest : Str) (hWn : Written name Wn) (hG1 : Gap G1) (hG1ne : Wn = name → G1 ≠ [])
     (hU : upper U = kUSING) (hint : sqlitePrefix.isPrefixOf name = false) :
-    virtualName name name (virtualHead ++ (Wn ++ (G1 ++ (U ++ rest)))) = .ok (U ++ rest) := by
+    virtualName name name (virtualHead ++ (Wn ++ (G1 ++ (U ++ rest)))) = .ok (lstrip (G1 ++ (U ++ rest))) := by
   obtain ⟨c1, c2, c3, c4, c5, rfl, l1, _⟩ := using_word U hU
   obtain ⟨w0, wt, hw, hws, _⟩ := written_head name Wn hWn
   have h0 : lstrip ((virtualHead ++ (Wn ++ (G1 ++ ([c1, c2, c3, c4, c5] ++ rest)))).drop createVirtualTable.length) =
@@ -868,122 +1226,139 @@ theorem virtualName_ok (name Wn G1 U rest : Str) (hWn : Written name Wn) (hG1 : 
       simp [virtualHead, createVirtualTable]
     rw [this]
     exact lstrip_ws _ (fun c tl e => by rw [hw] at e; cases e; exact hws) [' '] (by intro c hc; simp at hc; subst hc; decide)
-  have h1 : rowNameAndRest (Wn ++ (G1 ++ ([c1, c2, c3, c4, c5] ++ rest))) = .ok (name, G1 ++ ([c1, c2, c3, c4, c5] ++ rest)) := by
-    apply rowName_written name Wn _ hWn
-    · intro e
-      cases G1 with
-      | nil => exact absurd rfl (hG1ne e)
-      | cons g gs => exact ⟨g, _, rfl, Or.inl (hG1 g (List.mem_cons_self ..))⟩
-    · intro q hq
-      obtain ⟨c, tl, e, hc⟩ := gap_then G1 hG1 c1 ([c2, c3, c4, c5] ++ rest)
-      have e' : G1 ++ ([c1, c2, c3, c4, c5] ++ rest) = c :: tl := by simpa using e
-      rw [e']
-      simp only [List.head?_cons, ne_eq, Option.some.injEq]
-      exact quote_ne_of q c hq (by rcases hc with h | h; exact Or.inl h; exact Or.inr (Or.inl (h ▸ l1)))
-  have h2 : lstrip (G1 ++ ([c1, c2, c3, c4, c5] ++ rest)) = [c1, c2, c3, c4, c5] ++ rest :=
-    lstrip_ws _ (fun c tl e => by simp at e; rw [← e.1]; exact letter_not_space _ l1) G1 hG1
+  obtain ⟨ht1, hq1⟩ := after_name G1 hG1 c1 ([c2, c3, c4, c5] ++ rest) (Or.inl l1)
+  have h1 : rowNameAndRest (Wn ++ (G1 ++ ([c1, c2, c3, c4, c5] ++ rest))) = .ok (name, G1 ++ ([c1, c2, c3, c4, c5] ++ rest)) :=
+    rowName_written false name Wn _ hWn (fun e => Or.inl (ht1 (Or.inl (hG1ne e)))) hq1
   unfold virtualName
-  simp only [h0, h1, ok_bind, h2, lowerNe_self, Bool.false_eq_true, if_false, hint]
+  simp only [h0, h1, ok_bind, lowerNe_self, Bool.false_eq_true, if_false, hint]
 
-theorem virtualModule_ok (m U G2 Wm G3 R : Str) (hU : upper U = kUSING) (hG2 : Ws G2) (hWm : Written m Wm) (hG3 : Ws G3)
-    (hR : ModuleArgsOk R) :
-    virtualModule (U ++ (G2 ++ (Wm ++ (G3 ++ R)))) = .ok (m, []) := by
+/-- USING, the module name in any spelling, and the module arguments - or nothing (repair of C07-22) -/
+theorem virtualModule_ok (m G1 U G2 Wm G3 R : Str) (hG1 : Gap G1) (hU : upper U = kUSING) (hG2 : Gap G2)
+    (hWm : Written m Wm) (hG3 : Gap G3) (hR : R = [] ∨ ModuleArgsOk R) :
+    ∃ cs, virtualModule (lstrip (G1 ++ (U ++ (G2 ++ (Wm ++ (G3 ++ R)))))) = .ok (m, cs) := by
   obtain ⟨c1, c2, c3, c4, c5, rfl, l1, _⟩ := using_word U hU
-  obtain ⟨hh, close, hc, ht⟩ := hR
-  obtain ⟨R', hR'⟩ : ∃ R', R = '(' :: R' := by
-    cases R with
-    | nil => cases hh
-    | cons a as => exact ⟨as, by simpa using hh⟩
-  obtain ⟨w0, wt, hw, hws, _⟩ := written_head m Wm hWm
-  obtain ⟨w0', wt', hw', hn1, hn2⟩ := written_head_nc m Wm hWm
+  obtain ⟨w0, wt, hw, hws, _, hn1, hn2⟩ := written_head m Wm hWm
+  -- the gap before USING
+  have su : ∀ c tl, [c1, c2, c3, c4, c5] ++ (G2 ++ (Wm ++ (G3 ++ R))) = c :: tl → isSpace c = false :=
+    fun c tl e => by simp only [List.cons_append, List.cons.injEq] at e; rw [← e.1]; exact letter_not_space _ l1
+  obtain ⟨cs1, h1⟩ := takeComments_gap G1 hG1 _ [] su
   have s0 : startsWithComment ([c1, c2, c3, c4, c5] ++ (G2 ++ (Wm ++ (G3 ++ R)))) = false :=
     startsWithComment_head c1 _ (letter_ne c1 _ l1 (by unfold letter; decide)) (letter_ne c1 _ l1 (by unfold letter; decide))
-  have h1 : upper (([c1, c2, c3, c4, c5] ++ (G2 ++ (Wm ++ (G3 ++ R)))).take 5) = kUSING := by
+  rw [takeComments_none _ _ _ s0, List.nil_append] at h1
+  have h2 : upper (([c1, c2, c3, c4, c5] ++ (G2 ++ (Wm ++ (G3 ++ R)))).take 5) = kUSING := by
     simpa using hU
-  have h2 : lstrip (([c1, c2, c3, c4, c5] ++ (G2 ++ (Wm ++ (G3 ++ R)))).drop 5) = Wm ++ (G3 ++ R) := by
-    show lstrip (G2 ++ (Wm ++ (G3 ++ R))) = _
-    exact lstrip_ws _ (fun c tl e => by rw [hw] at e; cases e; exact hws) G2 hG2
+  -- the gap after USING
+  have sw : ∀ c tl, Wm ++ (G3 ++ R) = c :: tl → isSpace c = false :=
+    fun c tl e => by rw [hw] at e; cases e; exact hws
+  obtain ⟨cs2, h3⟩ := takeComments_gap G2 hG2 (Wm ++ (G3 ++ R)) cs1 sw
   have s1 : startsWithComment (Wm ++ (G3 ++ R)) = false := by
-    rw [hw']; exact startsWithComment_head w0' _ hn1 hn2
-  have h3 : rowNameAndRest (Wm ++ (G3 ++ R)) = .ok (m, G3 ++ R) := by
-    apply rowName_written m Wm _ hWm
-    · intro _
-      rw [hR']
-      exact gap_then G3 hG3 '(' R'
-    · intro q hq
-      obtain ⟨c, tl, e, hc'⟩ := gap_then G3 hG3 '(' R'
-      rw [hR', e]
-      simp only [List.head?_cons, ne_eq, Option.some.injEq]
-      exact quote_ne_of q c hq (by rcases hc' with h | h; exact Or.inl h; exact Or.inr (Or.inr h))
-  have h4 : lstrip (G3 ++ R) = R := by
-    rw [hR']
-    exact lstrip_ws _ (fun c tl e => by cases e; decide) G3 hG3
-  have s2 : startsWithComment R = false := by
-    rw [hR']; exact startsWithComment_head _ R' (by decide) (by decide)
-  have hp := parenthesised_of_close R close hh hc
-  unfold virtualModule
-  rw [takeComments_none _ _ [] s0]
-  simp only [ok_bind, h1, bne_self_eq_false, Bool.false_eq_true, if_false, h2]
-  rw [takeComments_none _ _ [] s1]
-  simp only [ok_bind, h3, h4]
-  rw [takeComments_none _ _ [] s2]
-  simp [ok_bind, hc, hp, ht]
+    rw [hw]; exact startsWithComment_head w0 _ hn1 hn2
+  rw [takeComments_none _ _ _ s1] at h3
+  have h3' : takeComments ((lstrip (([c1, c2, c3, c4, c5] ++ (G2 ++ (Wm ++ (G3 ++ R)))).drop 5)).length + 1)
+      (lstrip (([c1, c2, c3, c4, c5] ++ (G2 ++ (Wm ++ (G3 ++ R)))).drop 5)) cs1 = .ok (Wm ++ (G3 ++ R), cs1 ++ cs2) := h3
+  -- the module name and what follows it
+  rcases hR with hR | hR
+  · subst hR
+    have h4 : rowNameAndRest (Wm ++ (G3 ++ [])) true = .ok (m, G3 ++ []) := by
+      apply rowName_written true m Wm _ hWm
+      · intro _
+        cases G3 with
+        | nil => exact Or.inr ⟨rfl, rfl⟩
+        | cons x xs =>
+            obtain ⟨c, tl, e, hs⟩ := gap_head (x :: xs) hG3 (by simp)
+            exact Or.inl ⟨c, tl, by simpa using e, hs⟩
+      · intro q hq
+        cases G3 with
+        | nil => simp
+        | cons x xs =>
+            obtain ⟨c, tl, e, hs⟩ := gap_head (x :: xs) hG3 (by simp)
+            rw [List.append_nil, e]
+            simp only [List.head?_cons, ne_eq, Option.some.injEq]
+            exact stop_not_quote q c tl hq hs
+    obtain ⟨cs3, h5⟩ := takeComments_gap G3 hG3 [] (cs1 ++ cs2) (fun c tl e => by cases e)
+    have h5' : takeComments 1 [] (cs1 ++ cs2 ++ cs3) = .ok ([], cs1 ++ cs2 ++ cs3) := by
+      simp [takeComments, startsWithComment, dashDash, slashStar]
+    have h5 := h5.trans h5'
+    refine ⟨cs1 ++ cs2 ++ cs3, ?_⟩
+    unfold virtualModule
+    simp only [h1, ok_bind, h2, bne_self_eq_false, Bool.false_eq_true, if_false, h3', h4, h5, List.isEmpty_nil, if_true]
+  · obtain ⟨hh, close, hc, ht⟩ := hR
+    obtain ⟨hsolid, hs, R', hR'⟩ := paren_solid R hh
+    obtain ⟨ht4, hq4⟩ := after_name G3 hG3 '(' R' (Or.inr rfl)
+    rw [← hR'] at ht4 hq4
+    have h4 : rowNameAndRest (Wm ++ (G3 ++ R)) true = .ok (m, G3 ++ R) :=
+      rowName_written true m Wm _ hWm (fun _ => Or.inl (ht4 (Or.inr rfl))) hq4
+    obtain ⟨cs3, h5⟩ := takeComments_gap G3 hG3 R (cs1 ++ cs2) hsolid
+    rw [takeComments_none _ R _ hs] at h5
+    have hp := parenthesised_of_close R close hh hc
+    have hne : R.isEmpty = false := by rw [hR']; rfl
+    refine ⟨cs1 ++ cs2 ++ cs3, ?_⟩
+    unfold virtualModule
+    simp only [h1, ok_bind, h2, bne_self_eq_false, Bool.false_eq_true, if_false, h3', h4, h5, hne, hc, hp, Bool.not_true, ht,
+      List.isEmpty_nil, Bool.not_true]
 
 theorem collapse_virtualHead : collapse isBlank virtualHead = virtualHead := by decide
 
 theorem collapse_virtualSql (name m Wn Wm G1 U G2 G3 R : Str) (hWn : Written name Wn) (hWm : Written m Wm)
-    (hnb1 : noBlankRun name = true) (hnb2 : noBlankRun m = true) (hU : upper U = kUSING) (hR : R.head? = some '(') :
+    (hnb1 : noBlankRun name = true) (hnb2 : noBlankRun m = true) (hU : upper U = kUSING) :
     collapse isBlank (virtualSql Wn G1 U G2 Wm G3 R) =
-      virtualSql Wn (collapse isBlank G1) U (collapse isBlank G2) Wm (collapse isBlank G3) (collapse isBlank R) := by
+      virtualSql Wn (collapse isBlank G1) U (collapse isBlank G2) Wm (collapse isBlank (G3 ++ R)) [] := by
   obtain ⟨c1, c2, c3, c4, c5, hUe, l1, l2, l3, l4, l5⟩ := using_word U hU
   have hUb : ∀ c ∈ U, isBlank c = false := by
     intro c hc
     rw [hUe] at hc
     simp only [List.mem_cons, List.not_mem_nil, or_false] at hc
     rcases hc with h | h | h | h | h <;> subst h <;> exact letter_not_blank _ ‹_›
-  obtain ⟨i0, it, hi, _, hib⟩ := written_head name Wn hWn
-  obtain ⟨w0, wt, hw, _, hwb⟩ := written_head m Wm hWm
-  obtain ⟨R', hR'⟩ : ∃ R', R = '(' :: R' := by
-    cases R with
-    | nil => cases hR
-    | cons a as => exact ⟨as, by simpa using hR⟩
+  obtain ⟨i0, it, hi, _, hib, _⟩ := written_head name Wn hWn
+  obtain ⟨w0, wt, hw, _, hwb, _⟩ := written_head m Wm hWm
   unfold virtualSql
   rw [collapse_append_head isBlank _ _ (fun c tl e => by rw [hi] at e; cases e; exact hib) (by rw [hi]; simp),
     collapse_virtualHead, collapse_written name Wn _ hWn hnb1,
     collapse_append_head isBlank G1 _ (fun c tl e => by rw [hUe] at e; cases e; exact letter_not_blank _ l1) (by rw [hUe]; simp),
     collapse_prefix_nonblank isBlank _ U hUb,
     collapse_append_head isBlank G2 _ (fun c tl e => by rw [hw] at e; cases e; exact hwb) (by rw [hw]; simp),
-    collapse_written m Wm _ hWm hnb2,
-    collapse_append_head isBlank G3 R (fun c tl e => by rw [hR'] at e; cases e; decide) (by rw [hR']; simp)]
+    collapse_written m Wm _ hWm hnb2]
+  simp
 
 /-- `VirtualTableRow.__init__` on a CREATE VIRTUAL TABLE row of the stated shape: accepted, the columns
 unchanged, the module name found -/
 theorem virtualRow_shape (name m Wn Wm G1 U G2 G3 R : Str) (root : Option Int) (hname : name ≠ [])
     (hWn : Written name Wn) (hWm : Written m Wm) (hnb1 : noBlankRun name = true) (hnb2 : noBlankRun m = true)
-    (hG1 : Ws G1) (hG1ne : Wn = name → G1 ≠ []) (hU : upper U = kUSING) (hG2 : Ws G2) (hG3 : Ws G3)
-    (hR : R.head? = some '(') (hargs : ModuleArgsOk (collapse isBlank R))
+    (hG1 : Gap G1) (hG1ne : Wn = name → G1 ≠ []) (hU : upper U = kUSING) (hG2 : Gap G2) (hG3 : Gap G3)
+    (hR : R = [] ∨ (R.head? = some '(' ∧ ModuleArgsOk (collapse isBlank R)))
     (hm1 : InModel name) (hm3 : InModel (virtualSql Wn G1 U G2 Wm G3 R))
     (hint : sqlitePrefix.isPrefixOf name = false) :
-    virtualRow ⟨kTable, name, name, root, some (virtualSql Wn G1 U G2 Wm G3 R)⟩ =
+    ∃ cs, virtualRow ⟨kTable, name, name, root, some (virtualSql Wn G1 U G2 Wm G3 R)⟩ =
       .ok ⟨⟨kTable, name, name, root, some (virtualSql Wn G1 U G2 Wm G3 R)⟩,
-           sqlHasComments (some (virtualSql Wn G1 U G2 Wm G3 R)), .virtualTable m []⟩ := by
-  have hc := collapse_virtualSql name m Wn Wm G1 U G2 G3 R hWn hWm hnb1 hnb2 hU hR
+           sqlHasComments (some (virtualSql Wn G1 U G2 Wm G3 R)), .virtualTable m cs⟩ := by
+  have hc := collapse_virtualSql name m Wn Wm G1 U G2 G3 R hWn hWm hnb1 hnb2 hU
+  -- the collapsed tail: a gap and the module arguments, or a gap alone
+  have htail : ∃ G3' R', Gap G3' ∧ (R' = [] ∨ ModuleArgsOk R') ∧ collapse isBlank (G3 ++ R) = G3' ++ R' := by
+    rcases hR with h | ⟨hh, ha⟩
+    · subst h
+      exact ⟨collapse isBlank G3, [], collapse_gap G3 hG3, Or.inl rfl, by simp⟩
+    · obtain ⟨_, _, R', hR'⟩ := paren_solid R hh
+      refine ⟨collapse isBlank G3, collapse isBlank R, collapse_gap G3 hG3, Or.inr ha, ?_⟩
+      exact collapse_append_head isBlank G3 R (fun c tl e => by rw [hR'] at e; cases e; decide) (by rw [hR']; simp)
+  obtain ⟨G3', R', hG3', hR'', etail⟩ := htail
   have hn := virtualName_ok name Wn (collapse isBlank G1) U
-    (collapse isBlank G2 ++ (Wm ++ (collapse isBlank G3 ++ collapse isBlank R))) hWn (collapse_ws G1 hG1).1
-    (fun e => (collapse_ws G1 hG1).2 (hG1ne e)) hU hint
-  have hmod := virtualModule_ok m U (collapse isBlank G2) Wm (collapse isBlank G3) (collapse isBlank R) hU
-    (collapse_ws G2 hG2).1 hWm (collapse_ws G3 hG3).1 hargs
-  have hcmd : virtualCmd name name (collapse isBlank (virtualSql Wn G1 U G2 Wm G3 R)) = .ok (m, []) := by
-    rw [hc]
+    (collapse isBlank G2 ++ (Wm ++ (G3' ++ R'))) hWn (collapse_gap G1 hG1)
+    (fun e => collapse_ne G1 (hG1ne e)) hU hint
+  obtain ⟨cs, hmod⟩ := virtualModule_ok m (collapse isBlank G1) U (collapse isBlank G2) Wm G3' R' (collapse_gap G1 hG1) hU
+    (collapse_gap G2 hG2) hWm hG3' hR''
+  have hcmd : virtualCmd name name (collapse isBlank (virtualSql Wn G1 U G2 Wm G3 R)) = .ok (m, cs) := by
+    rw [hc, etail]
     unfold virtualCmd virtualSql
+    simp only [List.append_nil]
     simp only [hn, ok_bind, hmod]
   have hpre : createVirtualTable.isPrefixOf (virtualSql Wn G1 U G2 Wm G3 R) = true := by
     simp [virtualSql, virtualHead, createVirtualTable, List.isPrefixOf]
-  obtain ⟨c, cs, hsql⟩ : ∃ c cs, virtualSql Wn G1 U G2 Wm G3 R = c :: cs := ⟨'C', _, rfl⟩
+  obtain ⟨c, cs', hsql⟩ : ∃ c cs, virtualSql Wn G1 U G2 Wm G3 R = c :: cs := ⟨'C', _, rfl⟩
   obtain ⟨a, as, rfl⟩ : ∃ a as, name = a :: as := by
     cases name with
     | nil => exact absurd rfl hname
     | cons a as => exact ⟨a, as, rfl⟩
+  refine ⟨cs, ?_⟩
   unfold InModel at hm1 hm3
   unfold virtualRow
   simp only [Option.getD_some, hm1, hm3, Bool.or_self, Bool.false_eq_true, if_false]
@@ -992,7 +1367,6 @@ theorem virtualRow_shape (name m Wn Wm G1 U G2 G3 R : Str) (root : Option Int) (
            sqlHasComments (some (virtualSql Wn G1 U G2 Wm G3 R))⟩ := by
     rw [hsql]; rfl
   simp only [hinit, ok_bind, Option.getD_some, virtualBody, hpre, Bool.not_true, Bool.false_eq_true, if_false, hcmd]
-
 
 /-! ### internal schema objects -/
 
@@ -1034,58 +1408,12 @@ theorem indexRow_reserved_name (name tbl : Str) (root : Option Int) (sql : Optio
       .ok ⟨⟨kIndex, sqlitePrefix ++ t, b :: bs, root, normSql sql⟩, sqlHasComments (normSql sql)⟩ := rfl
   simp only [hinit, ok_bind, bne_self_eq_false, Bool.false_eq_true, if_false, h1, h2, Bool.not_false, Bool.and_self, if_true]
 
-/-! ### the fuel of the comment loop -/
-
-theorem parseComment_shorter (s c r : Str) (h : parseComment s = .ok (c, r)) : r.length < s.length := by
-  have hne : s ≠ [] := by
-    intro e; subst e; simp [parseComment, dashDash, slashStar] at h
-  have hpos : 0 < s.length := List.length_pos_iff.mpr hne
-  unfold parseComment at h
-  split at h
-  · split at h
-    · cases h
-    · cases h; rw [List.length_drop]; omega
-  · split at h
-    · split at h
-      · cases h
-      · cases h; rw [List.length_drop]; omega
-    · cases h
-
-theorem dropWhile_length_le (p : Char → Bool) : ∀ s : Str, (s.dropWhile p).length ≤ s.length
-  | [] => Nat.le_refl _
-  | c :: cs => by
-      rw [List.dropWhile_cons]
-      split
-      · exact Nat.le_succ_of_le (dropWhile_length_le p cs)
-      · exact Nat.le_refl _
-
-theorem lstrip_length_le (s : Str) : (lstrip s).length ≤ s.length := dropWhile_length_le _ s
-
-/-- any fuel above the length of the text gives the same answer: the fuel of `takeComments` (the length
-plus one, in every use) is never what ends the loop -/
-theorem takeComments_fuel : ∀ (f1 f2 : Nat) (s : Str) (acc : List Str), s.length < f1 → s.length < f2 →
-    takeComments f1 s acc = takeComments f2 s acc
-  | 0, _, _, _, h, _ => absurd h (Nat.not_lt_zero _)
-  | _ + 1, 0, _, _, _, h => absurd h (Nat.not_lt_zero _)
-  | f1 + 1, f2 + 1, s, acc, h1, h2 => by
-      unfold takeComments
-      split
-      · cases hp : parseComment s with
-        | error e => rfl
-        | ok cr =>
-          obtain ⟨c, r⟩ := cr
-          have := parseComment_shorter s c r hp
-          have hl := lstrip_length_le r
-          simp only [ok_bind]
-          exact takeComments_fuel f1 f2 (lstrip r) _ (by omega) (by omega)
-      · rfl
-
 /-! ### the indexed columns without quotes and comments -/
 
 /-- a plain column list (`balance`: parentheses nest, none of the characters that start a comment or a
-quoted string) without blank runs, followed by nothing or by whitespace and WHERE: the scanner accepts it -/
+quoted string) without blank runs, followed by an `IndexTailOk`: the scanner accepts it -/
 theorem indexColsOk_balanced (body tail : Str) (hb : balance 0 body = some 0)
-    (hnb : noBlankRun ('(' :: body ++ ')' :: tail) = true) (ht : IndexTailOk (lstrip tail)) :
+    (hnb : noBlankRun ('(' :: body ++ ')' :: tail) = true) (ht : IndexTailOk tail) :
     IndexColsOk (collapse isBlank ('(' :: body ++ ')' :: tail)) := by
   rw [collapse_noBlankRun _ hnb]
   refine ⟨rfl, body.length + 1, Proofs.Schema.closing_paren_balanced body tail hb, ?_⟩
@@ -1094,7 +1422,7 @@ theorem indexColsOk_balanced (body tail : Str) (hb : balance 0 body = some 0)
     rw [e]; exact List.drop_left' (by simp)
   rw [this]; exact ht
 
-/-! ### witnesses: statements SQLite 3.40.1 stores and the code refuses -/
+/-! ### witnesses -/
 
 /-- `CREATE INDEX i /* c */ ON t (a)` -/
 def sqlCommentBeforeOn : Str :=
@@ -1148,19 +1476,48 @@ def sqlExView : Str :=
 def sqlExTrigger : Str :=
   ['C','R','E','A','T','E',' ','T','R','I','G','G','E','R',' ','t','r',' ','A','F','T','E','R',' ','I','N','S','E','R','T',' ','O','N',' ','t',' ','B','E','G','I','N',' ','U','P','D','A','T','E',' ','t',' ','S','E','T',' ','a',' ','=',' ','C','A','S','E',' ','W','H','E','N',' ','a',' ','T','H','E','N',' ','1',' ','E','L','S','E',' ','2',' ','E','N','D',';',' ','S','E','L','E','C','T',' ','\'',';','\'',';',' ','E','N','D']
 
+/-- `CREATE INDEX i ON t (a) /* c` -/
+def sqlTrailingBlockComment : Str :=
+  ['C','R','E','A','T','E',' ','I','N','D','E','X',' ','i',' ','O','N',' ','t',' ','(','a',')',' ','/','*',' ','c']
+
+/-- `CREATE VIRTUAL TABLE "v  w" USING fts5(x)` -/
+def sqlBlankRunVirtual : Str :=
+  ['C','R','E','A','T','E',' ','V','I','R','T','U','A','L',' ','T','A','B','L','E',' ','"','v',' ',' ','w','"',' ','U','S','I','N','G',' ','f','t','s','5','(','x',')']
+
+/-- `CREATE INDEX i/* a  b */<NL>-- c<NL> ON/**/t -- d<NL> (a) /* e */ -- f` -/
+def sqlExGaps : Str :=
+  ['C','R','E','A','T','E',' ','I','N','D','E','X',' ','i','/','*',' ','a',' ',' ','b',' ','*','/','\n','-','-',' ','c','\n',' ','O','N','/','*','*','/','t',' ','-','-',' ','d','\n',' ','(','a',')',' ','/','*',' ','e',' ','*','/',' ','-','-',' ','f']
+
 def tablesT : Tables := [(['t'], some false)]
 
-/-- new finding: a comment between the index name and ON -/
+/-- the former witness of C07-20: a comment between the index name and ON - accepted, the comment kept -/
 theorem witness_comment_before_on :
-    errorOf (indexRow ⟨kIndex, ['i'], ['t'], some 3, some sqlCommentBeforeOn⟩ tablesT) = some .parseError := by decide +kernel
+    (indexRow ⟨kIndex, ['i'], ['t'], some 3, some sqlCommentBeforeOn⟩ tablesT).toOption =
+      some ⟨⟨kIndex, ['i'], ['t'], some 3, some sqlCommentBeforeOn⟩, true, .index false false false [['/', '*', ' ', 'c', ' ', '*', '/']]⟩ := by
+  decide +kernel
 
-/-- new finding: a comment between ON and the table name -/
+/-- the former witness of C07-20: a comment between ON and the table name -/
 theorem witness_comment_after_on :
-    errorOf (indexRow ⟨kIndex, ['i'], ['t'], some 3, some sqlCommentAfterOn⟩ tablesT) = some .parseError := by decide +kernel
+    (indexRow ⟨kIndex, ['i'], ['t'], some 3, some sqlCommentAfterOn⟩ tablesT).toOption =
+      some ⟨⟨kIndex, ['i'], ['t'], some 3, some sqlCommentAfterOn⟩, true, .index false false false [['/', '*', ' ', 'c', ' ', '*', '/']]⟩ := by
+  decide +kernel
 
-/-- new finding: a `--` comment that the end of the statement ends (no newline) -/
+/-- the former witnesses of C07-21: a `--` comment, a `/*` comment, that the end of the statement ends -/
 theorem witness_trailing_line_comment :
-    errorOf (indexRow ⟨kIndex, ['i'], ['t'], some 3, some sqlTrailingLineComment⟩ tablesT) = some .valueError := by decide +kernel
+    (indexRow ⟨kIndex, ['i'], ['t'], some 3, some sqlTrailingLineComment⟩ tablesT).toOption =
+      some ⟨⟨kIndex, ['i'], ['t'], some 3, some sqlTrailingLineComment⟩, true, .index false false false [['-', '-', ' ', 'c']]⟩ := by
+  decide +kernel
+
+theorem witness_trailing_block_comment :
+    (indexRow ⟨kIndex, ['i'], ['t'], some 3, some sqlTrailingBlockComment⟩ tablesT).toOption =
+      some ⟨⟨kIndex, ['i'], ['t'], some 3, some sqlTrailingBlockComment⟩, true, .index false false false [['/', '*', ' ', 'c']]⟩ := by
+  decide +kernel
+
+/-- the former witness of C07-22: a virtual table whose module takes no arguments -/
+theorem witness_no_module_arguments :
+    (virtualRow ⟨kTable, ['v'], ['v'], some 0, some sqlNoArgs⟩).toOption =
+      some ⟨⟨kTable, ['v'], ['v'], some 0, some sqlNoArgs⟩, true, .virtualTable ['d', 'b', 's', 't', 'a', 't'] []⟩ := by
+  decide +kernel
 
 /-- C07-09 on an index: "/" in an indexed expression -/
 theorem witness_slash_expression :
@@ -1171,22 +1528,20 @@ theorem witness_blank_run_name :
     errorOf (indexRow ⟨kIndex, ['i', ' ', ' ', 'x'], ['t'], some 3, some sqlBlankRunName⟩ tablesT) = some .parseError := by
   decide +kernel
 
+/-- C07-13 on a virtual table: a whitespace run inside the quoted table name -/
+theorem witness_blank_run_virtual :
+    errorOf (virtualRow ⟨kTable, ['v', ' ', ' ', 'w'], ['v', ' ', ' ', 'w'], some 0, some sqlBlankRunVirtual⟩) = some .parseError := by
+  decide +kernel
+
 /-- C07-19 on an index: the empty index name -/
 theorem witness_empty_index_name :
     errorOf (indexRow ⟨kIndex, [], ['t'], some 3, some sqlEmptyIndexName⟩ tablesT) = some .attributeError := by decide +kernel
 
-/-- new finding: a virtual table whose module takes no arguments -/
-theorem witness_no_module_arguments :
-    errorOf (virtualRow ⟨kTable, ['v'], ['v'], some 0, some sqlNoArgs⟩) = some .parseError := by decide +kernel
-
-/-! ### the full statements are false -/
-
-/-- whitespace, possibly with one block comment in it -/
-def Gap (g : Str) : Prop :=
-  Ws g ∨ ∃ w1 b w2, Ws w1 ∧ Ws w2 ∧ Spec.contains ['*', '/'] b = false ∧ g = w1 ++ '/' :: '*' :: b ++ '*' :: '/' :: w2
+/-! ### the full statements are still false (C07-13) -/
 
 def IndexRowsFull : Prop :=
   ∀ (u : Bool) (name tbl Wi Wt G1 G2 G3 R : Str) (o n : Char) (root : Option Int) (tables : Tables) (wr : Bool),
+    name ≠ [] → tbl ≠ [] →
     Written name Wi → Written tbl Wt → Gap G1 → (Wi = name → G1 ≠ []) → upperC o = 'O' → upperC n = 'N' → Gap G2 → Gap G3 →
     R.head? = some '(' → IndexColsOk (collapse isBlank R) →
     InModel name → InModel tbl → InModel (indexSql u Wi G1 o n G2 Wt G3 R) →
@@ -1195,45 +1550,46 @@ def IndexRowsFull : Prop :=
       .ok ⟨⟨kIndex, name, tbl, root, some (indexSql u Wi G1 o n G2 Wt G3 R)⟩,
            sqlHasComments (some (indexSql u Wi G1 o n G2 Wt G3 R)), .index false u p cs⟩
 
+theorem ws_single (c : Char) (h : isSpace c = true) : Ws [c] := by
+  intro x hx; simp at hx; subst hx; exact h
+
 theorem indexRowsFull_false : ¬ IndexRowsFull := by
   intro h
-  have hw := witness_comment_before_on
-  have e : sqlCommentBeforeOn = indexSql false ['i'] [' ', '/', '*', ' ', 'c', ' ', '*', '/', ' '] 'O' 'N' [' '] ['t'] [' '] ['(', 'a', ')'] := by
+  have hw := witness_blank_run_name
+  have e : sqlBlankRunName = indexSql false (quoteName '"' ['i', ' ', ' ', 'x']) [' '] 'O' 'N' [' '] ['t'] [' '] ['(', 'a', ')'] := by
     decide
-  obtain ⟨p, cs, hp⟩ := h false ['i'] ['t'] ['i'] ['t'] [' ', '/', '*', ' ', 'c', ' ', '*', '/', ' '] [' '] [' '] ['(', 'a', ')'] 'O' 'N'
-    (some 3) tablesT false (.plain ⟨by decide, by decide⟩) (.plain ⟨by decide, by decide⟩)
-    (Or.inr ⟨[' '], [' ', 'c', ' '], [' '], by intro c hc; simp at hc; subst hc; decide, by intro c hc; simp at hc; subst hc; decide,
-      by decide, by decide⟩)
-    (by intro _; decide) (by decide) (by decide) (Or.inl (by intro c hc; simp at hc; subst hc; decide))
-    (Or.inl (by intro c hc; simp at hc; subst hc; decide)) rfl
-    ⟨by decide, 2, by rfl, Or.inl (by decide)⟩ (by unfold InModel; decide) (by unfold InModel; decide)
+  obtain ⟨p, cs, hp⟩ := h false ['i', ' ', ' ', 'x'] ['t'] (quoteName '"' ['i', ' ', ' ', 'x']) ['t'] [' '] [' '] [' '] ['(', 'a', ')'] 'O' 'N'
+    (some 3) tablesT false (by decide) (by decide) (.quoted '"' rfl) (.plain ⟨by decide, by decide⟩)
+    (.ws _ (ws_single ' ' (by decide))) (by intro _; decide) (by decide) (by decide) (.ws _ (ws_single ' ' (by decide)))
+    (.ws _ (ws_single ' ' (by decide))) rfl
+    ⟨by decide, 2, by rfl, [], [], .ws _ (by intro c hc; cases hc), .nothing, by decide⟩ (by unfold InModel; decide) (by unfold InModel; decide)
     (by unfold InModel; decide +kernel) (by decide) (by decide)
-  rw [← e, ] at hp
+  rw [← e] at hp
   rw [hp] at hw
   cases hw
 
 def VirtualRowsFull : Prop :=
   ∀ (name m Wn Wm G1 U G2 G3 R : Str) (root : Option Int), name ≠ [] →
-    Written name Wn → Written m Wm → noBlankRun name = true → noBlankRun m = true →
-    Ws G1 → (Wn = name → G1 ≠ []) → upper U = kUSING → Ws G2 → Ws G3 →
+    Written name Wn → Written m Wm →
+    Gap G1 → (Wn = name → G1 ≠ []) → upper U = kUSING → Gap G2 → Gap G3 →
     (R = [] ∨ (R.head? = some '(' ∧ ModuleArgsOk (collapse isBlank R))) →
     InModel name → InModel (virtualSql Wn G1 U G2 Wm G3 R) → sqlitePrefix.isPrefixOf name = false →
-    virtualRow ⟨kTable, name, name, root, some (virtualSql Wn G1 U G2 Wm G3 R)⟩ =
+    ∃ cs, virtualRow ⟨kTable, name, name, root, some (virtualSql Wn G1 U G2 Wm G3 R)⟩ =
       .ok ⟨⟨kTable, name, name, root, some (virtualSql Wn G1 U G2 Wm G3 R)⟩,
-           sqlHasComments (some (virtualSql Wn G1 U G2 Wm G3 R)), .virtualTable m []⟩
+           sqlHasComments (some (virtualSql Wn G1 U G2 Wm G3 R)), .virtualTable m cs⟩
 
 theorem virtualRowsFull_false : ¬ VirtualRowsFull := by
   intro h
-  have hw := witness_no_module_arguments
-  have e : sqlNoArgs = virtualSql ['v'] [' '] kUSING [' '] ['d', 'b', 's', 't', 'a', 't'] [] [] := by decide
-  have hp := h ['v'] ['d', 'b', 's', 't', 'a', 't'] ['v'] ['d', 'b', 's', 't', 'a', 't'] [' '] kUSING [' '] [] [] (some 0) (by decide)
-    (.plain ⟨by decide, by decide⟩) (.plain ⟨by decide, by decide⟩) (by decide) (by decide)
-    (by intro c hc; simp at hc; subst hc; decide) (by intro _; decide) (by decide)
-    (by intro c hc; simp at hc; subst hc; decide) (by intro c hc; cases hc) (Or.inl rfl)
+  have hw := witness_blank_run_virtual
+  have e : sqlBlankRunVirtual = virtualSql (quoteName '"' ['v', ' ', ' ', 'w']) [' '] kUSING [' '] ['f', 't', 's', '5'] [] ['(', 'x', ')'] := by
+    decide
+  obtain ⟨cs, hp⟩ := h ['v', ' ', ' ', 'w'] ['f', 't', 's', '5'] (quoteName '"' ['v', ' ', ' ', 'w']) ['f', 't', 's', '5'] [' '] kUSING [' '] []
+    ['(', 'x', ')'] (some 0) (by decide) (.quoted '"' rfl) (.plain ⟨by decide, by decide⟩)
+    (.ws _ (ws_single ' ' (by decide))) (by intro _; decide) (by decide) (.ws _ (ws_single ' ' (by decide)))
+    (.ws _ (by intro c hc; cases hc)) (Or.inr ⟨rfl, by decide, 2, by rfl, by decide⟩)
     (by unfold InModel; decide) (by unfold InModel; decide +kernel) (by decide)
   rw [← e] at hp
   rw [hp] at hw
   cases hw
-
 
 end SqliteDissect.Proofs.C07Rows
